@@ -4,7 +4,7 @@ import math
 
 import numpy as np
 from hypothesis import strategies as st
-from vlib.harness import target
+from vlib.harness import call, target
 
 from vlib import strategies as S
 from vlib.harness import Sub, Violation, require, value
@@ -119,6 +119,21 @@ def oracle_axioms(case):
     Cp = cdf(cop, [pts[i] for i in perm])
     require(np.all(np.abs(Cp - C[perm]) <= 1e-13 * np.abs(C[perm]) + 1e-300),
             '%s(theta=%r): permuting the batch changes row results' % (fam, th), tag='row-independence')
+    # the same rows in another container (a list of rows - also of exactly two rows - or a DataFrame): the method may
+    # refuse the container, but when it answers, row i of the answer is C(u_i, v_i)
+    import pandas as pd
+
+    two = [list(map(float, pts[k])), list(map(float, pts[(k + 1) % n]))]
+    want_two = np.array([C[k], C[(k + 1) % n]])
+    for label, arg, want in (('a list of two rows', two, want_two), ('a list of rows', [list(map(float, p)) for p in pts], C),
+                             ('a DataFrame', pd.DataFrame(np.array(pts, dtype=float), columns=['u', 'v']), C)):
+        kd_, got = call(cop.cumulative_distribution, arg, allow=(Exception,), what='cumulative_distribution')
+        if kd_ == 'exc':
+            continue
+        got = np.ravel(np.asarray(got, dtype=float))
+        require(got.shape == want.shape and np.all(np.abs(got - want) <= 1e-13 * np.abs(want) + 1e-300),
+                '%s(theta=%r): cumulative_distribution of %s gives %r, the same rows as an array give %r' % (fam, th, label, got[:4], want[:4]),
+                tag='container')
     return {'nontrivial': is_nontrivial(fam, th, pts), 'classes': [fam] + point_classes(pts) + (['theta=1'] if (fam == 'gumbel' and th == 1) else [])}
 
 
